@@ -227,8 +227,12 @@ pub fn run_history(history: usize, n: usize, mode: usize, stride: usize, seed: u
             for i in 0..n {
                 let len = t.size();
                 ins(&mut t, len, i as u32, &mut f);
+                inserted += 1;
+                checkpoint!(t, false);
+                if violation.is_some() {
+                    break;
+                }
             }
-            inserted += n;
             checkpoint!(t, true);
             // remove every other element, from the back so positions stay valid
             let mut pos = t.size();
@@ -239,7 +243,7 @@ pub fn run_history(history: usize, n: usize, mode: usize, stride: usize, seed: u
                 inserted -= 1;
             }
             checkpoint!(t, true);
-            let refill = n / 2;
+            let refill = if violation.is_some() { 0 } else { n / 2 };
             for i in 0..refill {
                 let len = t.size();
                 ins(&mut t, if i % 2 == 0 { len } else { 0 }, (n + i) as u32, &mut f);
